@@ -10,17 +10,22 @@ CFG = dict(
          "frame index, dropped frames, emitting tick) is judged by the Lean oracle on every prefix of the history and compared with the Lean "
          "model under all map iteration orders. 3% of multi-group cases use unequal frames per packet (excluded point: recorded, model must "
          "predict the panic). Non-trivial = a gap was filled while the queue still held packets from an earlier tick (the mechanism's weak "
-         "spot) or a group's queue stayed non-empty across a tick; distinct by input line.",
+         "spot) or a group's queue stayed non-empty across a tick; distinct by input line. In addition 10 (quick) / 80 per job (thorough) `udp` cases "
+         "drive the REAL AbacoUDPReceiver (socket on the loopback interface, its reader goroutine with the reusable 8192-byte buffer, ReadAllPackets) "
+         "with 1..24 datagrams of real packets (35% with datagrams cut short so that the stale tail of the buffer completes them, and empty datagrams); "
+         "the slices ReadAllPackets returns are held uncopied until the end; on clean streams the packets handed out must be the packets sent, one per "
+         "datagram, in order (`C03:udp-packets-not-fifo`, theorem udp_packets_fifo), all cases are compared with Model/UdpPackets.lean.",
     nontrivial=["leftover", "gap-behind-leftover"],
     jobs=seeds(1, 2),
     trusted_base=["uint32 sequence numbers modelled as Nat (guard < 2^32, sync offset <= first number)",
                   "Go map iteration order over the channel groups = explicit permutation parameter of the model (all orders tried)",
                   "phase unwrapping switched off (zero AbacoUnwrapOptions: UnwrapInPlace is the identity); UDP sockets / shared-memory ring "
-                  "replaced by the scripted producer (C18 covers the ring, C15 the packet decoder)"],
+                  "replaced by the scripted producer in the tick-level cases (the `udp` cases run the real UDP receiver on loopback; C18 covers the ring and AbacoRing.ReadAllPackets, C15 the packet decoder)",
+                  "loopback UDP delivers the datagrams of one socket in order and without loss while the harness keeps less than 64 kB in flight"],
     assumptions=["packets of one group arrive in sequence order and belong to groups seen at start-up",
                  "all groups use the same number of frames per packet (otherwise demuxData panics: excluded point, run and recorded)"],
     timeout=dict(quick=600, thorough=3600),
-    lean_files=["C03", "ComposeAbaco"],
+    lean_files=["C03", "ComposeAbaco", "UdpPackets", "ComposeUdp"],
 )
 
 MANIFEST = dict(
@@ -47,6 +52,8 @@ MANIFEST = dict(
 
 THEOREMS = [
     ("DastardV.Props.C03", "DastardV.C03.fill_inserts_exactly_gaps"),
+    ("DastardV.Lemmas.ComposeUdp", "DastardV.UdpPk.udp_packets_fifo"),
+    ("DastardV.Lemmas.ComposeUdp", "DastardV.UdpPk.udp_packets_fifo_ingest"),
     ("DastardV.Lemmas.C03a", "DastardV.C03.demux_deinterleave"),
     ("DastardV.Lemmas.C03a", "DastardV.C03.pretend_chan"),
     ("DastardV.Props.C03", "DastardV.C03.C03_no_panic"),
